@@ -80,3 +80,11 @@ def _the(self, args, kwargs, fr, node):
     if v is None:
         self.raise_exc(AssertionError, 'the(None)', fr, node)
     return v
+
+
+@function_model('specs.typing.with_dt')
+def _with_dt(self, args, kwargs, fr, node):
+    from .classtable import TDT
+    e, d = args
+    e = e if isinstance(e, SV) else self.sv(e)
+    return SV(self.ct.with_common(e.ty.sort, e.term, 'data_type', self.term(d, TDT())), e.ty)
